@@ -32,8 +32,8 @@ CFGS = {
     "MC_iso": dict(kind="mc", doc="three 5-tuples (same IP other port, other IP), shared users, peers, numbers, txids; u2 over quota",
                    Clients='{"c1", "c2", "c3"}', Users='{"u1", "u2"}', QuotaDenied='{"u2"}', PeerIPs='{"A"}', ChanNums='{16384}',
                    LifeReqs='<- MCLifeAbsent0', MaxDepth='5'),
-    "MC_v6": dict(kind="mc", doc="IPv6 listener and peers, REQUESTED-ADDRESS-FAMILY classes",
-                  Clients='{"c1", "c6"}', PeerIPs='{"A", "X", "Y"}', PeerPorts='{1}', ReqFams='{0, 4, 6, 9}',
+    "MC_v6": dict(kind="mc", doc="IPv6 listener and peers, REQUESTED-ADDRESS-FAMILY classes, vetoed IPv6 peer",
+                  Clients='{"c1", "c6"}', PeerIPs='{"A", "X", "Y"}', PeerPorts='{1}', ReqFams='{0, 4, 6, 9}', Denied='<- MCDeniedV6',
                   ChanNums='{16384}', PermSeqs='<- MCPermSeqs1', MaxDepth='6'),
     "MC_mtu": dict(kind="mc", doc="payload lengths around the padding and buffer boundaries",
                    PeerIPs='{"A"}', PeerPorts='{1}', ChanNums='{16384}', Lens='<- MCLensMTU',
@@ -67,8 +67,8 @@ CFGS = {
     "GEN_iso": dict(kind="gen", doc="three 5-tuples sharing users, peers, channel numbers and transaction ids",
                     Clients='{"c1", "c2", "c3"}', Users='{"u1"}', PeerIPs='{"A"}', PeerPorts='{1}', ChanNums='{16384}',
                     LifeReqs='<- MCLifeAbsent0', MaxDepth='5'),
-    "GEN_v6": dict(kind="gen", doc="IPv6 listener/client/peers and REQUESTED-ADDRESS-FAMILY",
-                   Clients='{"c1", "c6"}', PeerIPs='{"A", "X", "Y"}', PeerPorts='{1}', ReqFams='{0, 4, 6, 9}',
+    "GEN_v6": dict(kind="gen", doc="IPv6 listener/client/peers and REQUESTED-ADDRESS-FAMILY, vetoed IPv6 peer",
+                   Clients='{"c1", "c6"}', PeerIPs='{"A", "X", "Y"}', PeerPorts='{1}', ReqFams='{0, 4, 6, 9}', Denied='<- MCDeniedV6',
                    ChanNums='{16384}', LifeReqs='<- MCLifeAbsent0', MaxDepth='4'),
     "GEN_v6strict": dict(kind="gen", doc="StrictAddressFamily: absent family means IPv4 even on an IPv6 listener",
                          Clients='{"c6"}', PeerIPs='{"A", "X"}', PeerPorts='{1}', ReqFams='{0, 6}', Strict='TRUE',
@@ -81,6 +81,9 @@ CFGS = {
                         PeerIPs='{"A"}', PeerPorts='{1, 2}', ChanNums='{16384}', PermSeqs='<- MCPermSeqs1', MaxDepth='7'),
     "GEN_stream": dict(kind="gen", doc="a datagram client and a stream client with the same IP and port; the control connection closes",
                        Clients='{"c1", "s1"}', PeerIPs='{"A"}', PeerPorts='{1}', ChanNums='{16384}', LifeReqs='<- MCLifeAbsent0', MaxDepth='5'),
+    "GEN_chan3": dict(kind="gen", doc="three channel numbers bound at different times: a binding that is not the newest expires while the others live on",
+                      PeerIPs='{"A"}', PeerPorts='{1, 2, 3}', ChanNums='{16384, 16385, 16386}', PermSeqs='<- MCPermSeqs1', LifeReqs='<- MCLifeAbsent',
+                      DefaultLife='9', PermTO='4', ChanTO='4', MaxDepth='8'),
     "GEN_mtu": dict(kind="gen", doc="payload lengths / contents through both encapsulations and both directions",
                     PeerIPs='{"A"}', PeerPorts='{1}', ChanNums='{16384}', Lens='<- MCLensMTU',
                     Pays='{"p", "stunlike", "chanlike", "zeros", "cookie"}', MaxDepth='4'),
